@@ -117,6 +117,8 @@ Check(i) ==
   /\ (CollideNoCRD(n, cl) \/ Viol("Collide.NoCRD", i))
   /\ ((Collides(n) => out.adm.create # "allowed") \/ Viol("Collide.Admission.Create", i))
   /\ ((Collides(n) => out.adm.update # "allowed") \/ Viol("Collide.Admission.Update", i))
+  \* an XRD that is being deleted but still exists gets the same verdict for the same update
+  /\ ((out.adm.updateTerminating = out.adm.update) \/ Viol("Admission.Terminating.Same", i))
   /\ CheckUpdate(o, n, out, i)
   /\ (Conforms(o, n, xr, cl, out) \/ PrintT("DRIFT|" \o ToString(i) \o "|" \o e.scenario))
 
